@@ -10,6 +10,7 @@ import OrxPar.Props.C04
 import OrxPar.Props.C06
 import OrxPar.Props.C07
 import OrxPar.Lemmas.Run
+import OrxPar.Lemmas.RunFair
 namespace OrxPar
 open K
 
@@ -61,5 +62,96 @@ theorem C07_collect_x_all_schedules (s : Src) (ops : List Op) (cs : List Nat) (h
     ∃ v, (Par.build s ops).1.term (schedExec (Par.build s ops).1.src.items cs sched) .collectX = .bag v
       ∧ v.Perm (seqVals s.items ops) :=
   C07_collect_x s ops _ (build_ok_of_schedule s ops cs hne hpos sched hd)
+
+/-- hypothesis bundle: `sched` is a finished schedule of the worker system over the source of the
+    terminal's runner -/
+abbrev Finished (P : Par) (cs : List Nat) (sched : List Nat) : Prop :=
+  Run.AllDone (Run.run (Run.init (Run.ofList P.src.items) (some P.src.items.length) (fun _ => false) cs) sched)
+
+/-- **C03 (every interleaving) — fold.** -/
+theorem C03_fold_all_schedules (s : Src) (ops : List Op) (cs : List Nat) (hne : cs ≠ [])
+    (hpos : ∀ c ∈ cs, 0 < c) (sched : List Nat) (hd : Finished (Par.build s ops).1 cs sched)
+    (op : Val → Val → Val) (identity : Val)
+    (hA : ∀ a b c, op (op a b) c = op a (op b c)) (hC : ∀ a b, op a b = op b a) :
+    (Par.build s ops).1.term (schedExec (Par.build s ops).1.src.items cs sched) (.fold op identity)
+      = .opt (some ((reduceList op (seqVals s.items ops)).getD identity)) :=
+  C03_fold s ops _ (build_ok_of_schedule s ops cs hne hpos sched hd) op identity hA hC
+
+/-- **C03 (every interleaving) — sum** (wrapping 64-bit addition). -/
+theorem C03_sum_all_schedules (s : Src) (ops : List Op) (cs : List Nat) (hne : cs ≠ [])
+    (hpos : ∀ c ∈ cs, 0 < c) (sched : List Nat) (hd : Finished (Par.build s ops).1 cs sched) :
+    (Par.build s ops).1.term (schedExec (Par.build s ops).1.src.items cs sched) .sum
+      = .opt (some ((reduceList (fun x y => (x + y) % 2 ^ 64) (seqVals s.items ops)).getD 0)) :=
+  C03_sum s ops _ (build_ok_of_schedule s ops cs hne hpos sched hd)
+
+/-- **C03 (every interleaving) — min / max.** -/
+theorem C03_min_all_schedules (s : Src) (ops : List Op) (cs : List Nat) (hne : cs ≠ [])
+    (hpos : ∀ c ∈ cs, 0 < c) (sched : List Nat) (hd : Finished (Par.build s ops).1 cs sched) :
+    (Par.build s ops).1.term (schedExec (Par.build s ops).1.src.items cs sched) .min
+      = .opt (reduceList Nat.min (seqVals s.items ops)) :=
+  C03_min s ops _ (build_ok_of_schedule s ops cs hne hpos sched hd)
+
+theorem C03_max_all_schedules (s : Src) (ops : List Op) (cs : List Nat) (hne : cs ≠ [])
+    (hpos : ∀ c ∈ cs, 0 < c) (sched : List Nat) (hd : Finished (Par.build s ops).1 cs sched) :
+    (Par.build s ops).1.term (schedExec (Par.build s ops).1.src.items cs sched) .max
+      = .opt (reduceList Nat.max (seqVals s.items ops)) :=
+  C03_max s ops _ (build_ok_of_schedule s ops cs hne hpos sched hd)
+
+/-- **C03 (every interleaving) — min_by_key / max_by_key**: a survivor with extremal key under
+    every finished schedule (which of several equally extremal ones may depend on the schedule). -/
+theorem C03_min_by_key_all_schedules (s : Src) (ops : List Op) (cs : List Nat) (hne : cs ≠ [])
+    (hpos : ∀ c ∈ cs, 0 < c) (sched : List Nat) (hd : Finished (Par.build s ops).1 cs sched)
+    (key : Val → Nat) :
+    ∃ r, (Par.build s ops).1.term (schedExec (Par.build s ops).1.src.items cs sched) (.minByKey key) = .opt r
+      ∧ IsMinOf key (seqVals s.items ops) r :=
+  C03_min_by_key s ops _ (build_ok_of_schedule s ops cs hne hpos sched hd) key
+
+theorem C03_max_by_key_all_schedules (s : Src) (ops : List Op) (cs : List Nat) (hne : cs ≠ [])
+    (hpos : ∀ c ∈ cs, 0 < c) (sched : List Nat) (hd : Finished (Par.build s ops).1 cs sched)
+    (key : Val → Nat) (B : Nat) (hB : ∀ v, key v ≤ B) :
+    ∃ r, (Par.build s ops).1.term (schedExec (Par.build s ops).1.src.items cs sched) (.maxByKey key) = .opt r ∧
+      ((seqVals s.items ops = [] ∧ r = none) ∨
+       ∃ v, r = some v ∧ v ∈ seqVals s.items ops ∧ ∀ y ∈ seqVals s.items ops, key y ≤ key v) :=
+  C03_max_by_key s ops _ (build_ok_of_schedule s ops cs hne hpos sched hd) key B hB
+
+/-- **C04 (every interleaving) — for_each**: under every finished schedule of the workers of the
+    `map(f).count()` computation `for_each` delegates to, `f` receives exactly the survivors. -/
+theorem C04_for_each_all_schedules (s : Src) (ops : List Op) (cs : List Nat) (hne : cs ≠ [])
+    (hpos : ∀ c ∈ cs, 0 < c) (sched : List Nat)
+    (hst : ∀ op ∈ ops, op.stage? ≠ some stForEach)
+    (hd : Finished ((Par.build s ops).1.applyT (.map stForEach fun _ => 0)).1 cs sched) :
+    ∃ v, (Par.build s ops).1.term
+        (schedExec ((Par.build s ops).1.applyT (.map stForEach fun _ => 0)).1.src.items cs sched) .forEach = .bag v
+      ∧ v.Perm (seqVals s.items ops) :=
+  C04_for_each s ops _ hst (Or.inr (Run.run_accepts_full _ cs hne hpos sched hd))
+
+/-- non-vacuity of `Finished`: three workers with chunk sizes 2, 2, 5 over three elements of a
+    `map` pipeline, a concrete finished schedule -/
+example : Finished (Par.build ⟨[10, 11, 12], true⟩ []).1 [2, 2, 5]
+    [1, 1, 0, 1, 0, 0, 2, 1, 0, 1, 0] := by decide
+
+/-- **The corollaries above are not vacuous for any input**: for every source, every non-empty
+    list of positive chunk sizes there is a finished schedule (round-robin for
+    `2·len + Σc + 2·#workers + 4` rounds), and — `C10_terminates_fair_finite` — every fair
+    schedule of that many rounds is one. -/
+theorem finished_schedule_exists (xs : List Val) (cs : List Nat) (hne : cs ≠ []) (hpos : ∀ c ∈ cs, 0 < c) :
+    ∃ sched, Run.AllDone (Run.run (Run.init (Run.ofList xs) (some xs.length) (fun _ => false) cs) sched) := by
+  refine ⟨(List.replicate (2 * xs.length + cs.sum + 2 * cs.length + 4) (List.range cs.length)).flatten, ?_⟩
+  refine Run.terminates_fair_finite _ _ _ cs hne hpos _ (fun r hr => ?_) (by simp)
+  rw [List.eq_of_mem_replicate hr]
+  intro t ht
+  exact List.mem_range.mpr ht
+
+/-- hence every terminal of the reduce / count / collect families *has* a value equal to the
+    sequential one on every pipeline: the statement "for every finished schedule" quantifies over
+    a non-empty set -/
+theorem C03_reduce_some_schedule (s : Src) (ops : List Op) (cs : List Nat) (hne : cs ≠ [])
+    (hpos : ∀ c ∈ cs, 0 < c) (op : Val → Val → Val)
+    (hA : ∀ a b c, op (op a b) c = op a (op b c)) (hC : ∀ a b, op a b = op b a) :
+    ∃ sched, Finished (Par.build s ops).1 cs sched ∧
+      (Par.build s ops).1.term (schedExec (Par.build s ops).1.src.items cs sched) (.reduce op)
+        = .opt (reduceList op (seqVals s.items ops)) := by
+  obtain ⟨sched, hd⟩ := finished_schedule_exists (Par.build s ops).1.src.items cs hne hpos
+  exact ⟨sched, hd, C03_reduce_all_schedules s ops cs hne hpos sched hd op hA hC⟩
 
 end OrxPar
